@@ -59,6 +59,7 @@ def sites(tree):
         last = j - 1
         if t.role == "key":
             item = item_of(tree, t.ref)
+            out.append((len(out), "other", i, "above"))                   # a comment line of its own above the keyword line
             if item[0] == "kw":
                 out.append((len(out), "trail", j, "after_stmt"))          # comment goes into the gap before token j
                 if last > i + 1:
@@ -72,6 +73,7 @@ def sites(tree):
         elif t.role == "end":
             out.append((len(out), "other", j, "after_stmt"))
         elif t.role in ("kvkey",):
+            out.append((len(out), "other", i, "above"))
             out.append((len(out), "other", j, "after_stmt"))
     return out, toks
 
@@ -326,7 +328,7 @@ def run_base(res, idx, triples, shard=0):
         for a, b in itertools.combinations(sts, 2):
             if a[0] % 16 != shard:
                 continue
-            for ka, kb in ((("#", "#"), ("/**/", "#"), ("#odd", "2line")) if _TIER[0] == "quick" else
+            for ka, kb in ((("#", "#"), ("/**/", "#"), ("#odd", "2line"), ("#", "/**/")) if _TIER[0] == "quick" else
                            (("#", "#"), ("#", "/**/"), ("/**/", "#"), ("2line", "#"), ("#odd", "#"), ("#odd", "2line"))):
                 combos.append([(a, ka, 1), (b, kb, 2)])
         if shard == 0:
